@@ -6,6 +6,7 @@ CONSTANTS
   MaxSets = 0
   PointerReceiver = TRUE
   CacheDerived = FALSE
+  GlobalLock = FALSE
 SPECIFICATION Spec
 INVARIANTS NoConflictingAccess
 PROPERTIES CallsLeaveFieldsUnchanged
